@@ -940,6 +940,16 @@ pub fn run(ctx: &Ctx, st: &mut Stats) {
         texts.push(format!("0x{v:x}"));
         texts.push(format!("0X{v:X}"));
         texts.push(format!("-{v}"));
+        // a sign in front of an octal / hexadecimal constant, and superfluous leading zeros
+        texts.push(format!("-0{v:o}"));
+        texts.push(format!("+0{v:o}"));
+        texts.push(format!("-0x{v:x}"));
+        texts.push(format!("+0X{v:X}"));
+        texts.push(format!("+{v}"));
+        texts.push(format!("-000{v:o}"));
+    }
+    for t in ["08", "-08", "+09", "-0", "+0", "-00", "0x", "-0x", "-", "+"] {
+        texts.push(t.into());
     }
     texts.push("00".into());
     texts.push("0x0".into());
@@ -952,7 +962,7 @@ pub fn run(ctx: &Ctx, st: &mut Stats) {
     CONST.run_list(st, &consts);
     let n = ctx.tier.pick(20_000, 500_000);
     CONST.run_random(ctx, st, n, || {
-        (any::<u64>(), 0u8..7, 0usize..16, 0u32..64).prop_map(move |(v, form, t, sh)| {
+        (any::<u64>(), 0u8..11, 0usize..16, 0u32..64).prop_map(move |(v, form, t, sh)| {
             // forms 5 and 6 keep the top bit: magnitudes up to 2^64-1, negative and positive
             let v = if form >= 5 { v >> (sh % 2) } else { (v >> sh) >> 1 };
             // `x=-9223372036854775808` is a valid value while `-(9223372036854775808)` applies the
@@ -965,6 +975,10 @@ pub fn run(ctx: &Ctx, st: &mut Stats) {
                 1 => format!("0{v:o}"),
                 2 => format!("0x{v:x}"),
                 3 => format!("0X{v:X}"),
+                7 => format!("-0{v:o}"),
+                8 => format!("+0{v:o}"),
+                9 => format!("-0x{v:x}"),
+                10 => format!("+{v}"),
                 _ => format!("-{v}"),
             };
             ConstCase { text, template: templates[t].0.to_string(), direct: templates[t].1.to_string() }
